@@ -340,11 +340,21 @@ class NamespaceClass(Namespace[symtable.Class]):
         elif symbol.is_global():
             return self.get_load_global_name(name)
         else:
-            # a class member
-            return Subscript(
-                value=self.class_member_dict_expr,
-                slice=Constant(value=name),
-                ctx=Load(),
+            # a class member.
+            # A name of the class body is looked up in the class namespace
+            # first and then in the globals (it may be read before it is bound)
+            return IfExp(
+                test=Compare(
+                    left=Constant(value=name),
+                    ops=[In()],
+                    comparators=[self.class_member_dict_expr],
+                ),
+                body=Subscript(
+                    value=self.class_member_dict_expr,
+                    slice=Constant(value=name),
+                    ctx=Load(),
+                ),
+                orelse=self.get_load_global_name(name),
             )
 
 
